@@ -11,6 +11,7 @@ import (
 	"flag"
 	"fmt"
 	"os"
+	"runtime"
 	"strings"
 	"sync"
 	"time"
@@ -159,9 +160,36 @@ func runScript(s *script) result {
 				l.add("ArmEnd", ts1, shortMs)
 			}
 		case "Stop":
+			// every other script: other goroutines read the timer's state (under the timer's lock) while it is stopped -
+			// the stop must take effect however busy that lock is
+			var quit chan struct{}
+			var wg sync.WaitGroup
+			if s.ID%2 == 1 && runtime.GOMAXPROCS(0) >= 4 {
+				quit = make(chan struct{})
+				for g := 0; g < 3; g++ {
+					wg.Add(1)
+					go func() {
+						defer wg.Done()
+						for {
+							select {
+							case <-quit:
+								return
+							default:
+								_ = c.VerifTimerToken()
+								runtime.Gosched()
+							}
+						}
+					}()
+				}
+				time.Sleep(200 * time.Microsecond)
+			}
 			l.add("StopStart", 0, 0)
 			c.VerifStopTimer()
 			l.add("StopEnd", 0, 0)
+			if quit != nil {
+				close(quit)
+				wg.Wait()
+			}
 		case "Expire":
 			d := shortMs
 			if o.Dur == "long" || o.Dur == "par" {
